@@ -8,7 +8,10 @@ half of `BaseProtocol`).  All statements quantify over **every** read-buffer lim
 **every** finite sequence `ops : List Op` of producer operations (feed_data, begin/end
 chunk, feed_eof, set_exception, connection lost) interleaved with consumer operations
 (read(n), read(-1), readany, readuntil/readline, readexactly, readchunk, read_nowait, the
-async iterators, set_read_chunk_size, resumption of the parked coroutine).
+async iterators, set_read_chunk_size, resumption of the parked coroutine), and over **both
+values** `f` of the behaviour flag `recheck` (`_wait()` re-checks `_exception` after a regular
+wake-up: absent before the `fix:` commit, present after; `init = initF Gen.C08.waitRechecksException`
+with the flag probed from the source on every run).
 -/
 namespace Aio.C08
 open Aio
@@ -21,8 +24,8 @@ theorem chunk_constants_ok :
 /-- The structural invariant (buffer bookkeeping, chunk splits sorted inside
 `[cursor, total]`, water-mark relations, waiter discipline, delivery bookkeeping) holds after
 every operation sequence from a fresh reader. -/
-theorem inv_exec (limit : Nat) (ops : List Op) : SInv (exec (init limit) ops) :=
-  exec_sinv (init_sinv limit) ops
+theorem inv_exec (f : Bool) (limit : Nat) (ops : List Op) : SInv (exec (initF f limit) ops) :=
+  exec_sinv (initF_sinv f limit) ops
 
 /-- `run` (with outputs) and `exec` (state only) agree, and the ghost `delivered` is nothing but
 the concatenation of the byte strings the operations returned. -/
@@ -47,37 +50,37 @@ theorem delivered_is_output {s : S} (hs : SInv s) (ops : List Op) :
 /-- **Conservation.** After any operation sequence: the bytes taken out of the buffer so far,
 followed by the bytes still buffered, are exactly the bytes fed, in order — nothing lost,
 duplicated or reordered inside the reader. -/
-theorem conservation (limit : Nat) (ops : List Op) :
-    (exec (init limit) ops).taken ++ rest (exec (init limit) ops) = (exec (init limit) ops).fed :=
-  (inv_exec limit ops).inv.cons
+theorem conservation (f : Bool) (limit : Nat) (ops : List Op) :
+    (exec (initF f limit) ops).taken ++ rest (exec (initF f limit) ops) = (exec (initF f limit) ops).fed :=
+  (inv_exec f limit ops).inv.cons
 
 /-- **Exact ordered delivery.** Unless some call raised after having taken bytes (LineTooLong,
 the installed exception, "Connection closed" — `lost`), the concatenation of everything the
 read calls returned, followed by the bytes held by the parked call, followed by the buffer,
 is exactly what was fed. -/
-theorem delivered_exact (limit : Nat) (ops : List Op) :
-    (exec (init limit) ops).lost = false →
-    (exec (init limit) ops).delivered ++ pendAcc (exec (init limit) ops) ++ rest (exec (init limit) ops)
-      = (exec (init limit) ops).fed := by
+theorem delivered_exact (f : Bool) (limit : Nat) (ops : List Op) :
+    (exec (initF f limit) ops).lost = false →
+    (exec (initF f limit) ops).delivered ++ pendAcc (exec (initF f limit) ops) ++ rest (exec (initF f limit) ops)
+      = (exec (initF f limit) ops).fed := by
   intro hl
-  have h := inv_exec limit ops
+  have h := inv_exec f limit ops
   rw [h.deliv hl]; exact h.inv.cons
 
 /-- Corollary: what has been returned is always a prefix of what was fed (same proviso). -/
-theorem delivered_prefix_of_fed (limit : Nat) (ops : List Op) :
-    (exec (init limit) ops).lost = false →
-    (exec (init limit) ops).delivered <+: (exec (init limit) ops).fed := by
+theorem delivered_prefix_of_fed (f : Bool) (limit : Nat) (ops : List Op) :
+    (exec (initF f limit) ops).lost = false →
+    (exec (initF f limit) ops).delivered <+: (exec (initF f limit) ops).fed := by
   intro hl
-  have := delivered_exact limit ops hl
+  have := delivered_exact f limit ops hl
   exact ⟨_, by rw [← this, List.append_assoc]⟩
 
 /-- A call that returns `blocked` has installed the waiter, and a reader is blocked (waiter
 installed, future pending) only on an empty buffer. -/
-theorem blocked_only_on_empty_buffer (limit : Nat) (ops : List Op) (op : Op) :
-    ((step (exec (init limit) ops) op).2 = .blocked → (step (exec (init limit) ops) op).1.waiter = true) ∧
-    ((exec (init limit) ops).waiter = true →
-      (exec (init limit) ops).bufs = [] ∧ (exec (init limit) ops).fut = .pending) := by
-  have h := inv_exec limit ops
+theorem blocked_only_on_empty_buffer (f : Bool) (limit : Nat) (ops : List Op) (op : Op) :
+    ((step (exec (initF f limit) ops) op).2 = .blocked → (step (exec (initF f limit) ops) op).1.waiter = true) ∧
+    ((exec (initF f limit) ops).waiter = true →
+      (exec (initF f limit) ops).bufs = [] ∧ (exec (initF f limit) ops).fut = .pending) := by
+  have h := inv_exec f limit ops
   exact ⟨step_blocked h op, fun hw => ⟨h.inv.waiter_empty hw, (h.inv.waiter_parked hw).2⟩⟩
 
 /-
@@ -95,8 +98,8 @@ the correspondence run and the direct oracle only) and the lifting through `iter
 /-- **End-of-stream only after all data** (partial, see above): in any reachable state,
 `read(n>0)` / `readany()` returning `b""`, `read(-1)` returning at all, and `readchunk()`
 returning `(b"", False)` happen only when `feed_eof` was called and nothing is buffered. -/
-theorem eof_last_partial (limit : Nat) (ops : List Op) :
-    let s := exec (init limit) ops
+theorem eof_last_partial (f : Bool) (limit : Nat) (ops : List Op) :
+    let s := exec (initF f limit) ops
     (∀ n it, 0 < n → (contRead s n it).2 = .data [] →
       (contRead s n it).1.eof = true ∧ (contRead s n it).1.bufs = []) ∧
     (∀ it, (contReadAny s it).2 = .data [] →
@@ -106,7 +109,7 @@ theorem eof_last_partial (limit : Nat) (ops : List Op) :
     (∀ it, (contReadChunk s it).2 = .chunk [] false →
       (contReadChunk s it).1.eof = true ∧ (contReadChunk s it).1.bufs = []) := by
   intro s
-  have hi := (inv_exec limit ops).inv
+  have hi := (inv_exec f limit ops).inv
   exact ⟨fun n it hn h => contRead_eof hi n hn it h, fun it h => contReadAny_eof hi it h,
     fun fuel acc it x h => contReadAll_eof fuel acc it x hi h, fun it h => contReadChunk_eof hi it h⟩
 
@@ -114,34 +117,34 @@ theorem eof_last_partial (limit : Nat) (ops : List Op) :
 answers `(data, True)`, the consumer position then equals `total_bytes` as it was at some
 `end_http_chunk_receiving()` call (ghost `bounds`), and the data returned is exactly the bytes
 up to it (`delivered_exact`). -/
-theorem readchunk_boundary_sound (limit : Nat) (ops : List Op) (it : Bool) (d : Bytes) :
-    let s := exec (init limit) ops
+theorem readchunk_boundary_sound (f : Bool) (limit : Nat) (ops : List Op) (it : Bool) (d : Bytes) :
+    let s := exec (initF f limit) ops
     (contReadChunk s it).2 = .chunk d true → (contReadChunk s it).1.cursor ∈ s.bounds := by
   intro s h
-  exact contReadChunk_boundary (inv_exec limit ops).inv it d h
+  exact contReadChunk_boundary (inv_exec f limit ops).inv it d h
 
 /-- hypotheses satisfiable: a chunk boundary reported after `begin; feed; end` -/
-example : (contReadChunk (exec (init 4) [.beginChunk, .feed [1, 2], .endChunk]) false).2 = .chunk [1, 2] true := by
+example : (contReadChunk (exec (initF true 4) [.beginChunk, .feed [1, 2], .endChunk]) false).2 = .chunk [1, 2] true := by
   decide +kernel
 
 /-- the pending chunk splits are strictly increasing offsets inside `[cursor, total]`, each one
 recorded by `end_http_chunk_receiving` -/
-theorem splits_sorted_in_range (limit : Nat) (ops : List Op) (l : List Nat) :
-    (exec (init limit) ops).splits = some l →
-    l.Pairwise (· < ·) ∧ ∀ p ∈ l, (exec (init limit) ops).cursor ≤ p ∧ p ≤ (exec (init limit) ops).total ∧
-      p ∈ (exec (init limit) ops).bounds := by
+theorem splits_sorted_in_range (f : Bool) (limit : Nat) (ops : List Op) (l : List Nat) :
+    (exec (initF f limit) ops).splits = some l →
+    l.Pairwise (· < ·) ∧ ∀ p ∈ l, (exec (initF f limit) ops).cursor ≤ p ∧ p ≤ (exec (initF f limit) ops).total ∧
+      p ∈ (exec (initF f limit) ops).bounds := by
   intro h
-  have hi := (inv_exec limit ops).inv
+  have hi := (inv_exec f limit ops).inv
   exact ⟨hi.sorted l h, fun p hp => ⟨(hi.range l h p hp).1, (hi.range l h p hp).2, hi.inb l h p hp⟩⟩
 
 /-- **Back-pressure bound.** Whenever reading is not paused (and end-of-stream has not been
 fed), the buffered size is at most the high-water mark and the number of pending chunk
 boundaries at most the chunk high-water mark. -/
-theorem reading_implies_bounded (limit : Nat) (ops : List Op) :
-    (exec (init limit) ops).paused = false → (exec (init limit) ops).eof = false →
-    (exec (init limit) ops).size ≤ (exec (init limit) ops).high ∧
-    nsplits (exec (init limit) ops) ≤ (exec (init limit) ops).highChunks :=
-  (inv_exec limit ops).inv.bounded
+theorem reading_implies_bounded (f : Bool) (limit : Nat) (ops : List Op) :
+    (exec (initF f limit) ops).paused = false → (exec (initF f limit) ops).eof = false →
+    (exec (initF f limit) ops).size ≤ (exec (initF f limit) ops).high ∧
+    nsplits (exec (initF f limit) ops) ≤ (exec (initF f limit) ops).highChunks :=
+  (inv_exec f limit ops).inv.bounded
 
 /-- `feed_data` pauses reading exactly when the buffered size exceeds the high-water mark
 (and tells the transport when one is attached); otherwise the pause flag is unchanged. -/
@@ -230,31 +233,32 @@ Stated but not proved (covered by the correspondence run and the direct oracle o
 /-- **No stuck pause.** With a positive limit, after any operation sequence: a reader
 blocked on the (necessarily empty) buffer never has reading paused — neither the protocol
 flag nor, while connected, the transport. -/
-theorem no_stuck_pause (limit : Nat) (hl : 0 < limit) (ops : List Op) :
-    (exec (init limit) ops).waiter = true →
-    (exec (init limit) ops).bufs = [] ∧ (exec (init limit) ops).paused = false ∧
-    ((exec (init limit) ops).connected = true → (exec (init limit) ops).tpaused = false) := by
+theorem no_stuck_pause (f : Bool) (limit : Nat) (hl : 0 < limit) (ops : List Op) :
+    (exec (initF f limit) ops).waiter = true →
+    (exec (initF f limit) ops).bufs = [] ∧ (exec (initF f limit) ops).paused = false ∧
+    ((exec (initF f limit) ops).connected = true → (exec (initF f limit) ops).tpaused = false) := by
   intro hw
-  have h := inv_exec limit ops
-  have hp : PInv (exec (init limit) ops) :=
-    exec_pinv (init_sinv limit) ⟨by simpa [init] using hl, by intro h; cases h⟩ ops
+  have h := inv_exec f limit ops
+  have hp : PInv (exec (initF f limit) ops) :=
+    exec_pinv (initF_sinv f limit) ⟨by simpa [initF] using hl, by intro h; cases h⟩ ops
   have hb := h.inv.waiter_empty hw
-  have hpz : (exec (init limit) ops).paused = false := by
-    cases hq : (exec (init limit) ops).paused with
+  have hpz : (exec (initF f limit) ops).paused = false := by
+    cases hq : (exec (initF f limit) ops).paused with
     | false => rfl
     | true => exact absurd hb (hp.paused_nonempty hq)
   refine ⟨hb, hpz, ?_⟩
   intro hc
-  cases ht : (exec (init limit) ops).tpaused with
+  cases ht : (exec (initF f limit) ops).tpaused with
   | false => rfl
   | true => have := h.inv.tp hc ht; rw [hpz] at this; cases this
 
 /-- hypotheses of `no_stuck_pause` are satisfiable: a fresh `readany()` blocks -/
-example : (exec (init 1) [.readAny false]).waiter = true := by decide +kernel
+example : (exec (initF true 1) [.readAny false]).waiter = true ∧ (exec (initF false 1) [.readAny false]).waiter = true := by
+  decide +kernel
 
 /-- a paused, then drained and resumed run (non-vacuity of the pause/resume theorems) -/
-example : (exec (init 1) [.feed [1, 2, 3]]).paused = true ∧
-    (exec (init 1) [.feed [1, 2, 3], .readAny false]).paused = false := by decide +kernel
+example : (exec (initF true 1) [.feed [1, 2, 3]]).paused = true ∧
+    (exec (initF true 1) [.feed [1, 2, 3], .readAny false]).paused = false := by decide +kernel
 
 /-- **End of stream un-pauses.** `feed_eof()` never leaves reading paused, whatever the reason it
 was paused for (bytes above high water, chunk count, partially drained between the marks): the
@@ -294,19 +298,69 @@ theorem exception_raised_by_started_reads (s : S) (e : Nat) (he : s.exc = some e
   · intro n
     simp [step, core, hp, doReadNowait, he, raise]
 
-/-- **Known finding (C08-K2…K9).** The guarantee above does not extend to a call that was already
-parked: woken by a chunk end that brought no data, with `set_exception` and `feed_eof` arriving
-before it resumes, `read(2)` returns `b""` — a regular end of stream on a failed transfer
-(`_wait()` returns without re-checking `_exception`). -/
+/-- **Finding C08-K2…K9 (behaviour before the fix, `recheck = false`).** The guarantee above does
+not extend to a call that was already parked: woken by a chunk end that brought no data, with
+`set_exception` and `feed_eof` arriving before it resumes, `read(2)` returns `b""` — a regular
+end of stream on a failed transfer. -/
 theorem resumed_read_clean_end_after_exception :
-    (run (init 8) [.beginChunk, .feed [120], .readAny false, .read (some 2) false, .endChunk,
-                   .setExc 1, .feedEof, .wakeup]).2.getLast? = some (.data []) := by decide +kernel
+    (run (initF false 8) [.beginChunk, .feed [120], .readAny false, .read (some 2) false, .endChunk,
+                          .setExc 1, .feedEof, .wakeup]).2.getLast? = some (.data []) := by decide +kernel
+
+/-- sibling of the finding (`recheck = false`): same wake-up, the error but no `feed_eof` — the
+reader parks again and stays blocked with the exception recorded -/
+theorem resumed_read_reparks_with_exception :
+    (run (initF false 8) [.beginChunk, .feed [120], .readAny false, .read (some 2) false, .endChunk,
+                          .setExc 1, .wakeup]).2.getLast? = some .blocked ∧
+    (exec (initF false 8) [.beginChunk, .feed [120], .readAny false, .read (some 2) false, .endChunk,
+                           .setExc 1, .wakeup]).waiter = true := by decide +kernel
+
+/-- **With the fix (`recheck = true`): a resumed call raises the recorded error.** In every
+reachable state in which an exception is recorded and a parked call (any read API, any bytes
+already taken) is resumed, the outcome is that exception or the one its future was resolved
+with — never data, never a regular end of stream, never `blocked`. -/
+theorem resumed_reads_raise (limit : Nat) (ops : List Op) (e : Nat) :
+    (exec (initF true limit) ops).exc = some e → (exec (initF true limit) ops).parked.isSome = true →
+    (exec (initF true limit) ops).waiter = false →
+    ∃ e', (step (exec (initF true limit) ops) .wakeup).2 = .err (.exc e') := by
+  intro he hp hw
+  have hs := inv_exec true limit ops
+  have hr : (exec (initF true limit) ops).recheck = true := exec_recheck (initF_sinv true limit) ops
+  generalize exec (initF true limit) ops = s at *
+  cases hpk : s.parked with
+  | none => rw [hpk] at hp; cases hp
+  | some p =>
+    have hfp : s.fut ≠ .pending := by
+      intro h; have := hs.inv.fut_pending h; rw [hw] at this; cases this
+    cases hf : s.fut with
+    | pending => exact absurd hf hfp
+    | exc e1 =>
+      exact ⟨e1, by cases hi : p.iter <;> simp [step, core, hpk, hw, resume, hf, raise, iterOut, hi]⟩
+    | ok =>
+      exact ⟨e, by cases hi : p.iter <;> simp [step, core, hpk, hw, resume, hf, hr, he, raise, iterOut, hi]⟩
+
+/-- **With the fix (`recheck = true`): no reader stays blocked once an error is recorded.** After
+any operation sequence, an exception recorded on the stream and a pending waiter never coexist
+(the sibling hang `resumed_read_reparks_with_exception` is gone). -/
+theorem no_block_with_exception (limit : Nat) (ops : List Op) :
+    (exec (initF true limit) ops).exc ≠ none → (exec (initF true limit) ops).waiter = false := by
+  intro he
+  have hr : (exec (initF true limit) ops).recheck = true := exec_recheck (initF_sinv true limit) ops
+  have hx : XInv (exec (initF true limit) ops) :=
+    exec_xinv (initF_sinv true limit) (by intro _ _; rfl) ops
+  exact hx hr he
+
+/-- the two sequences of the finding, with the fix: both resumed reads raise exception 1 -/
+example :
+    (run (initF true 8) [.beginChunk, .feed [120], .readAny false, .read (some 2) false, .endChunk,
+                         .setExc 1, .feedEof, .wakeup]).2.getLast? = some (.err (.exc 1)) ∧
+    (run (initF true 8) [.beginChunk, .feed [120], .readAny false, .read (some 2) false, .endChunk,
+                         .setExc 1, .wakeup]).2.getLast? = some (.err (.exc 1)) := by decide +kernel
 
 /-- **Known finding (limit = 0).** `no_stuck_pause` needs `0 < limit`: with `limit = 0`,
 feeding two bytes pauses (2 > 0), `readany()` drains them without resuming (0 < 0 is false),
 and the next `readany()` parks on the empty buffer with reading paused. -/
-theorem limit_zero_wedges :
-    let s := exec (init 0) [.feed [97, 98], .readAny false, .readAny false]
+theorem limit_zero_wedges : ∀ f : Bool,
+    let s := exec (initF f 0) [.feed [97, 98], .readAny false, .readAny false]
     s.waiter = true ∧ s.bufs = [] ∧ s.paused = true ∧ s.tpaused = true := by decide +kernel
 
 end Aio.C08
